@@ -188,10 +188,46 @@ theorem parseFlate_clamped (d : Dict) : FlateClamped (parseFlate d) := by
     exact ⟨parsePredictor_range d, fun h => absurd h h1, fun _ => parseColors_range d,
       fun _ => parseBpc_range d, fun _ => parseColumns_range d⟩
 
-/-- **parse_clamps (Flate)**: for EVERY `/DecodeParms` dictionary the parsed filter passes
-`FilterFlate.validate` at every version from 1.5 on; below that exactly the two documented
-version restrictions (more than 4 colours before 1.3, 16 bits before 1.5) can fail. -/
-theorem parse_clamps_flate (d : Dict) (v : Nat) (hv : Gen.meta_V1_5 ≤ v) : (parseFlate d).validate v = true := by
+/-- `validateFlateLZW` = its own checks and (with a predictor) `predict.Params.Validate` -/
+theorem validate_base_of_validate {v : Nat} {p colors bpc columns : Int}
+    (h : validateFlateLZW v p colors bpc columns = true) : validateFlateLZWBase v p colors bpc columns = true := by
+  unfold validateFlateLZW at h
+  exact (Bool.and_eq_true _ _ ▸ h).1
+
+/-- **validate_ok_encode_ok** (library fix 879cf71, former finding D22 `predict-validate-gap`): for ALL
+parameters, whatever `validateFlateLZW` accepts is accepted by `predict.Params.Validate` on
+`predictParams(p, colors, bpc, columns)` — so `predict.NewWriter`/`NewReader` cannot fail on the
+parameters of a validated Flate/LZW filter. -/
+theorem validate_ok_encode_ok (v : Nat) (p colors bpc columns : Int)
+    (h : validateFlateLZW v p colors bpc columns = true) : (predictParams p colors bpc columns).validate = true := by
+  have hN : (Gen.filter_FlatePredictorNone : Int) = 1 := by decide
+  unfold validateFlateLZW at h
+  have h2 := (Bool.and_eq_true _ _ ▸ h).2
+  by_cases hu : usingPredictor p = true
+  · simpa [hu] using h2
+  · -- no predictor: `predictParams` selects predictor 1, which `Validate` accepts outright
+    have h0 : p = 0 ∨ p = 1 := by
+      have : usingPredictor p = false := by simpa using hu
+      simp [usingPredictor, hN] at this; omega
+    unfold predictParams PParams.validate
+    rcases h0 with h | h <;> simp [h]
+
+theorem flate_validate_ok_encode_ok (f : FFlate) (v : Nat) (h : f.validate v = true) : f.pparams.validate = true := by
+  unfold FFlate.validate at h
+  split at h
+  · simp at h
+  · exact validate_ok_encode_ok v _ _ _ _ h
+
+theorem lzw_validate_ok_encode_ok (f : FLZW) (v : Nat) (h : f.validate v = true) :
+    (predictParams f.predictor f.colors f.bpc f.columns).validate = true :=
+  validate_ok_encode_ok v _ _ _ _ h
+
+/-- **parse_clamps (Flate)**: for EVERY `/DecodeParms` dictionary the parsed filter passes all of
+`FilterFlate.validate`'s own checks (`validateBase`) at every version from 1.5 on; below that exactly
+the two documented version restrictions (more than 4 colours before 1.3, 16 bits before 1.5) can fail.
+Since 879cf71 `validate` additionally applies the predictor's limits, which parsing does not clamp to
+(`parse_validate_iff`): a parsed dictionary is valid exactly when the predictor accepts it. -/
+theorem parse_clamps_flate (d : Dict) (v : Nat) (hv : Gen.meta_V1_5 ≤ v) : (parseFlate d).validateBase v = true := by
   have hc := parseFlate_clamped d
   generalize parseFlate d = f at hc
   obtain ⟨hp, hu, hcol, hb, hcl⟩ := hc
@@ -200,7 +236,7 @@ theorem parse_clamps_flate (d : Dict) (v : Nat) (hv : Gen.meta_V1_5 ≤ v) : (pa
   have h15 : Gen.meta_V1_5 = 6 := by decide
   have hN : (Gen.filter_FlatePredictorNone : Int) = 1 := by decide
   rw [h15] at hv
-  unfold FFlate.validate validateFlateLZW
+  unfold FFlate.validateBase validateFlateLZWBase
   have hvalid : predictorValid f.predictor = true := by
     simp [predictorValid, Gen.filter_FlatePredictorNone, Gen.filter_FlatePredictorTIFF, Gen.filter_FlatePredictorPNGNone,
       Gen.filter_FlatePredictorPNGSub, Gen.filter_FlatePredictorPNGUp, Gen.filter_FlatePredictorPNGAverage,
@@ -217,7 +253,7 @@ theorem parse_clamps_flate (d : Dict) (v : Nat) (hv : Gen.meta_V1_5 ≤ v) : (pa
     omega
 
 theorem parse_clamps_flate_old (d : Dict) (v : Nat) (hv : Gen.meta_V1_2 ≤ v) :
-    (parseFlate d).validate v = true ∨
+    (parseFlate d).validateBase v = true ∨
     ((parseFlate d).colors > 4 ∧ v < Gen.meta_V1_3) ∨ ((parseFlate d).bpc = 16 ∧ v < Gen.meta_V1_5) := by
   have hc := parseFlate_clamped d
   generalize parseFlate d = f at hc
@@ -233,7 +269,7 @@ theorem parse_clamps_flate_old (d : Dict) (v : Nat) (hv : Gen.meta_V1_2 ≤ v) :
   · exact Or.inr (Or.inr hB)
   left
   rw [h13] at hA; rw [h15] at hB
-  unfold FFlate.validate validateFlateLZW
+  unfold FFlate.validateBase validateFlateLZWBase
   have hvalid : predictorValid f.predictor = true := by
     simp [predictorValid, Gen.filter_FlatePredictorNone, Gen.filter_FlatePredictorTIFF, Gen.filter_FlatePredictorPNGNone,
       Gen.filter_FlatePredictorPNGSub, Gen.filter_FlatePredictorPNGUp, Gen.filter_FlatePredictorPNGAverage,
@@ -250,16 +286,31 @@ theorem parse_clamps_flate_old (d : Dict) (v : Nat) (hv : Gen.meta_V1_2 ≤ v) :
     omega
 
 /-- LZW shares the predictor parameters (no version floor of its own) -/
-theorem parse_clamps_lzw (d : Dict) (v : Nat) (hv : Gen.meta_V1_5 ≤ v) : (parseLZW d).validate v = true := by
+theorem parse_clamps_lzw (d : Dict) (v : Nat) (hv : Gen.meta_V1_5 ≤ v) : (parseLZW d).validateBase v = true := by
   have h := parse_clamps_flate d v hv
   have h12 : Gen.meta_V1_2 = 3 := by decide
   have h15 : Gen.meta_V1_5 = 6 := by decide
-  unfold FFlate.validate at h
+  unfold FFlate.validateBase at h
   rw [h12] at h; rw [h15] at hv
   rw [if_neg (by omega)] at h
-  simpa [FLZW.validate, parseLZW] using h
+  simpa [FLZW.validateBase, parseLZW] using h
 
-example : (parseFlate [(kPredictor, .int 15), (kColors, .int 9223372036854775807), (kColumns, .int (-3))]).validate 9 = true := by
+/-- a parsed `/DecodeParms` dictionary passes `FilterFlate.validate` (PDF ≥ 1.5) exactly when the
+predictor accepts the parsed parameters -/
+theorem parse_validate_iff (d : Dict) (v : Nat) (hv : Gen.meta_V1_5 ≤ v) :
+    (parseFlate d).validate v = (!usingPredictor (parseFlate d).predictor || (parseFlate d).pparams.validate) := by
+  have hb := parse_clamps_flate d v hv
+  have h12 : Gen.meta_V1_2 = 3 := by decide
+  have h15 : Gen.meta_V1_5 = 6 := by decide
+  unfold FFlate.validateBase at hb
+  unfold FFlate.validate validateFlateLZW FFlate.pparams
+  rw [h12] at hb ⊢; rw [h15] at hv
+  rw [if_neg (by omega)] at hb ⊢
+  rw [hb, Bool.true_and]
+
+example : (parseFlate [(kPredictor, .int 15), (kColors, .int 9223372036854775807), (kColumns, .int (-3))]).validateBase 9 = true ∧
+    (parseFlate [(kPredictor, .int 15), (kColors, .int 9223372036854775807), (kColumns, .int (-3))]).validate 9 = false ∧
+    (parseFlate [(kPredictor, .int 15), (kColors, .int 3), (kColumns, .int 100)]).validate 9 = true := by
   decide
 
 /-- after parsing, the predictor parameters either fail `Params.Validate` cleanly or reach the
